@@ -38,6 +38,10 @@ type Term struct {
 	Signed bool     // hint for BV consts when printing models
 	Alpha  *[256]bool // strings: if non-nil, every byte of the value is in this set
 	Exact  int        // strings (variables): exact length when > 0
+	OfInt  *Term      // strings produced by integer formatting: the formatted integer (KInt)
+	OfBV   *Term      // ... and the bit-vector it was formatted from
+	OfBVS  bool       // signedness of OfBV
+	FromI  *Term      // floats produced exactly from a (<= 32 bit) integer: that integer (KInt)
 	L      *lin       // KInt: linear normal form
 	text   string
 }
@@ -1268,10 +1272,17 @@ func fpFromBV(a *Term, signed bool, w int) *Term {
 		}
 		return mkFPVal(w, float64(a.UVal))
 	}
+	var t *Term
 	if signed {
-		return app(fmt.Sprintf("(_ to_fp %s) RNE", fpSort(w)), KFP, w, a)
+		t = app(fmt.Sprintf("(_ to_fp %s) RNE", fpSort(w)), KFP, w, a)
+	} else {
+		t = app(fmt.Sprintf("(_ to_fp_unsigned %s) RNE", fpSort(w)), KFP, w, a)
 	}
-	return app(fmt.Sprintf("(_ to_fp_unsigned %s) RNE", fpSort(w)), KFP, w, a)
+	if w == 64 && a.W <= 32 {
+		t.FromI = intOf(a, signed) // exact: every 32-bit integer is a float64
+		t.OfBV, t.OfBVS = a, signed
+	}
+	return t
 }
 
 func fpToFP(a *Term, w int) *Term {
